@@ -143,6 +143,9 @@ def r3(ctx, lib):
                 if m:
                     ch = unesc(m.group(1))
         op = c.op
+        if kb is None and ka is not None:
+            from ..analysis import FLIP
+            op = FLIP.get(op, op)         # `'\u{20}' > c` is `c < '\u{20}'`
         got.add((op, ord(ch) if ch else None))
         atoms['a%d' % i] = c.bb
     want = {('<', 0x20), ('==', 0x7f), ('==', 0xfffd), ('==', 0x27)}
